@@ -307,11 +307,14 @@ def clip(s, n=140):
 # ------------------------------------------------------------------------------------------
 # site finders
 # ------------------------------------------------------------------------------------------
-MACROS = ("panic", "unreachable", "unimplemented", "todo", "assert", "assert_eq", "assert_ne")
+MACROS = ("panic", "unreachable", "unimplemented", "todo", "assert", "assert_eq", "assert_ne",
+          "debug_assert", "debug_assert_eq", "debug_assert_ne")
 METHODS = ("truncate", "split_at", "split_at_mut", "split_off", "drain", "remove", "swap_remove", "insert",
            "copy_from_slice", "clone_from_slice", "replace_range", "from_static", "from_secs_f64", "from_secs_f32",
            "from_utf8_unchecked", "unwrap_unchecked", "get_unchecked", "unwrap_err", "expect_err", "step_by", "chunks", "windows",
-           "chunks_exact", "rotate_left", "rotate_right")
+           "chunks_exact", "rotate_left", "rotate_right", "swap", "split_to", "advance", "slice", "copy_within",
+           "select_nth_unstable", "block_on", "unreachable_unchecked", "from_raw_parts", "split_first_chunk", "as_chunks",
+           "rchunks", "chunk_by", "repeat", "with_capacity", "reserve_exact", "resize", "extend_from_within", "borrow_mut", "borrow")
 # of these, only the ones that take an offset/index/constant that can be wrong matter; `insert`
 # and `remove` also name HashMap/HeaderMap methods (no panic) -- the table classifies each.
 NUM = re.compile(r"^[0-9][0-9a-zA-Z_\.]*$")
